@@ -34,7 +34,9 @@ NAMES = ["a", "field", "a b", 'q"uo"te', "semi;colon", "back\\slash",
 FILENAMES = ["f.txt", "my file.bin", 'q"uote.png', "se;mi.txt", "b\\s.txt",
              "\u00fc\u0148\u00ed.dat", "C:\\dir\\x.doc", "a=b.c",
              "\u6587\u4ef6.pdf", "..\\..\\up", "trail.", " x ",
-             "C:\\dir\\", 'e"\\', "\\\\"]
+             "C:\\dir\\", 'e"\\', "\\\\",
+             # a file input nothing was selected for: filename=""
+             "", ""]
 CTYPES = [None, None, "text/plain", "application/octet-stream", "image/png",
           "text/plain; charset=utf-8", "application/x-custom+json",
           "Text/Plain"]
@@ -885,6 +887,8 @@ def e2e(ctx):
                 content = gen_content(rng, boundary, size)
                 if dirty(content, boundary):
                     content = b"\r\n-" * (size // 3) + b"-" * (size % 3)
+                    if dirty(content, boundary):    # boundaries of dashes
+                        content = b"\r\n=" * (size // 3) + b"=" * (size % 3)
                 parts = [base[0], ("f", "x.bin", "application/octet-stream",
                                    content), base[2]]
                 body = encode(boundary, parts)
